@@ -11,8 +11,9 @@ Open Scope list_scope.
 Open Scope nat_scope.
 
 (* two callbacks agree on closed inputs; the first returns closed results and grows the store *)
-Definition cb_agree (cb1 cb2 : callback) : Prop :=
-  forall this f args st, closed_value st this -> closed_value st f -> closed_list st args ->
+Definition cb_agree (s0 : store) (cb1 cb2 : callback) : Prop :=
+  forall this f args st, store_le s0 st ->
+    closed_value st this -> closed_value st f -> closed_list st args ->
     cb1 this f args st = cb2 this f args st.
 (* ... from every store above s0 (below s0 the values the callback closes over, e.g. the
    caller's `inputs`, need not be closed yet) *)
@@ -24,7 +25,7 @@ Definition cb_closed (s0 : store) (cb : callback) : Prop :=
 Section Framework.
   Variable cb1 cb2 : callback.
   Variable s0 : store.
-  Hypothesis Hag : cb_agree cb1 cb2.
+  Hypothesis Hag : cb_agree s0 cb1 cb2.
   Hypothesis Hcl : cb_closed s0 cb1.
 
   (* from every store above s: same computation, store grows, Ok results satisfy Q there *)
@@ -86,8 +87,9 @@ Section Framework.
     intros s f args Hs0 Hf Ha st Hst. unfold call_fn.
     assert (Hf' : closed_value st f) by (eapply closed_mono; eauto).
     assert (Ha' : closed_list st args) by (eapply closed_list_mono; eauto).
+    assert (Hs0st : store_le s0 st) by (eapply store_le_trans; eauto).
     split; [apply Hag; assumption|].
-    intros r st' H. eapply Hcl in H; eauto. eapply store_le_trans; eauto.
+    intros r st' H. eapply Hcl in H; eauto.
   Qed.
 End Framework.
 
@@ -146,7 +148,7 @@ Qed.
 Section Arms.
   Variable cb1 cb2 : callback.
   Variable s0 : store.
-  Hypothesis Hag : cb_agree cb1 cb2.
+  Hypothesis Hag : cb_agree s0 cb1 cb2.
   Hypothesis Hcl : cb_closed s0 cb1.
   Variable fa2 : value -> bool.
   Variable powf : num -> num -> num.
@@ -334,7 +336,7 @@ End Arms.
 Section HofAgree.
   Variable cb1 cb2 : callback.
   Variable s0 : store.
-  Hypothesis Hag : cb_agree cb1 cb2.
+  Hypothesis Hag : cb_agree s0 cb1 cb2.
   Hypothesis Hcl : cb_closed s0 cb1.
 
   Definition post {A} (Q : store -> A -> Prop) (st : store) (x : outcome A * store) : Prop :=
